@@ -66,7 +66,7 @@ PROPS = {
         ],
     },
     "C06": {
-        "theorems": ["SV.Props.C06.source_threshold_tests_are_the_models", "SV.Props.C06.source_sender_limit_test_is_the_models", "SV.Props.C06.sender_count_bound", "SV.Props.C06.sender_bytes_partial", "SV.Props.C06.eviction_postcondition", "SV.Props.C06.pool_bounds_after_add", "SV.Props.C06.no_pool_wide_drop_when_disabled"],
+        "theorems": ["SV.Props.C06.holds_for_every_accepted_configuration", "SV.Props.C06.source_threshold_tests_are_the_models", "SV.Props.C06.source_sender_limit_test_is_the_models", "SV.Props.C06.sender_count_bound", "SV.Props.C06.sender_bytes_partial", "SV.Props.C06.eviction_postcondition", "SV.Props.C06.pool_bounds_after_add", "SV.Props.C06.no_pool_wide_drop_when_disabled"],
         "modules": ["SV.Props.C06"],
         "runs": [{"component": "txcache", "thorough_seeds": 3, "compare_kinds": ["add", "rm", "clear"]}],
         "rule": "random add/rm/clear/sel histories over a small transaction alphabet (hash determines content) under boundary-biased configurations; distinct = distinct (operation kind, canonical output incl. full API dump) pairs observed on the implementation",
@@ -94,7 +94,7 @@ PROPS = {
         "assumptions": ["Go maps and container/list are modelled (association lists, lists); chunk routing by fnv32 is modelled exactly; item sizes are >= 0"],
     },
     "C13": {
-        "theorems": ["SV.Props.C13.cache_never_exceeds_max", "SV.Props.C13.cache_views_agree", "SV.Props.C13.cache_flags_truthful", "SV.Props.C13.cache_remove_withdraws_immunity", "SV.Props.C13.cache_immunize_gate_refuses_whole", "SV.Props.C13.source_capacity_test_is_the_models", "SV.Props.C13.source_chunk_config_is_the_models", "SV.Props.C13.chunk_invariant", "SV.Props.C13.flags_truthful", "SV.Props.C13.eviction_is_fifo", "SV.Props.C13.eviction_partition", "SV.Props.C13.remove_withdraws_immunity", "SV.Props.C13.immunize_gate"],
+        "theorems": ["SV.Props.C13.holds_for_every_accepted_configuration", "SV.Props.C13.cache_never_exceeds_max", "SV.Props.C13.cache_views_agree", "SV.Props.C13.cache_flags_truthful", "SV.Props.C13.cache_remove_withdraws_immunity", "SV.Props.C13.cache_immunize_gate_refuses_whole", "SV.Props.C13.source_capacity_test_is_the_models", "SV.Props.C13.source_chunk_config_is_the_models", "SV.Props.C13.chunk_invariant", "SV.Props.C13.flags_truthful", "SV.Props.C13.eviction_is_fifo", "SV.Props.C13.eviction_partition", "SV.Props.C13.remove_withdraws_immunity", "SV.Props.C13.immunize_gate"],
         "modules": ["SV.Props.C13"],
         "runs": [{"component": "immunity", "thorough_seeds": 2}],
         "rule": "random HasOrAdd/Put/Remove/ImmunizeKeys/Clear histories over 4-12 keys through ImmunityCache and CrossTxCache, 1-16 chunks, capacities at their lower bounds, sizes 0..500; thorough adds all histories of length 5 over an 11-operation alphabet (single chunk); distinct = distinct (operation kind, canonical output incl. full dump) pairs",
@@ -124,7 +124,7 @@ PROPS = {
         "assumptions": ["goleveldb contract: Write(batch) applies the batch atomically and in order, Get/Has/NewIterator read the applied writes, Close/Open preserve them", "timer flush is modelled as an explicit tick event; the harness waits BatchDelaySeconds+0.35s for it"],
     },
     "C16": {
-        "theorems": ["SV.Props.C16.real_cachers_satisfy_the_contract", "SV.Props.C16.unit_over_size_lru", "SV.Props.C16.unit_over_lru", "SV.Props.C16.unit_over_fifo", "SV.Props.C16.real_unit_rejected_put_not_served", "SV.Props.C16.behaves_like_map_of_acknowledged_writes", "SV.Props.C16.rejected_put", "SV.Props.C16.remove_both_layers", "SV.Props.C16.get_is_readonly"],
+        "theorems": ["SV.Props.C16.factory_refuses_batch_larger_than_cache", "SV.Props.C16.real_cachers_satisfy_the_contract", "SV.Props.C16.unit_over_size_lru", "SV.Props.C16.unit_over_lru", "SV.Props.C16.unit_over_fifo", "SV.Props.C16.real_unit_rejected_put_not_served", "SV.Props.C16.behaves_like_map_of_acknowledged_writes", "SV.Props.C16.rejected_put", "SV.Props.C16.remove_both_layers", "SV.Props.C16.get_is_readonly"],
         "modules": ["SV.Props.C16"],
         "runs": [{"component": "unit", "thorough_seeds": 2}],
         "rule": 'random Put/Get/Has/Remove/ClearCache/GetBulk histories on storageUnit.Unit over every cacher the factory builds (LRU, SizeLRU, FIFOSharded) at capacities 1-6, over memorydb behind a fault-injecting wrapper (Put/Get/Remove rejected at random positions) and over real leveldb.DB / SerialDB; after every operation the injected cacher is read back (Keys/Peek) and fed to the model as the eviction outcome; distinct = distinct (operation kind, canonical output) pairs',
